@@ -69,6 +69,18 @@ func init() {
 		sr := x.FairSuffix(40)
 		fmt.Printf("suffix: %+v\n", sr)
 		if !sr.Quiescent && os.Getenv("SMOKE_PROBE") != "" {
+			cnt := map[string]int{}
+			for _, e := range x.C.Errors {
+				if len(e) > 160 {
+					e = e[:160]
+				}
+				cnt[e]++
+			}
+			for e, k := range cnt {
+				if k > 3 {
+					fmt.Printf("probe: error x%d: %s\n", k, e)
+				}
+			}
 			for _, n := range x.C.Nodes {
 				if n != nil && !n.Down && n.Node.VCoreState().Busy {
 					err := x.Step(sched.Action{K: "G", A: n.Idx, B: (n.Idx + 1) % len(x.C.Nodes)})
